@@ -31,12 +31,12 @@ def strict_schema_ok(doc: dict) -> bool:
 strict_schema_ok._symx_native = True
 
 
-@lemma("C03", params=lambda: [(m,) for m in deletion_masks(P(4, 6))],
-       bounds="as C02 to_serial_from_serial: stores of 4 (quick) / 6 (thorough) nodes with any deletable set of nodes removed, optional index reuse, "
+@lemma("C03", params=lambda: [(m,) for m in deletion_masks(P(4, 5))],
+       bounds="as C02 to_serial_from_serial: stores of 4 (quick) / 5 (thorough) nodes with any deletable set of nodes removed, optional index reuse, "
               "<= 2 / 3 optional links incl. order links",
        opts={"max_paths": 400000, "timeout_s": 3000})
 def index_sanity(dels):
-    n = P(4, 6)
+    n = P(4, 5)
     h, live = holey_hugr(n, dels=dels)
     links = live_links(P(2, 3), live, max_off=P(1, 2))
     store.attach_links(h, links, {i: 2 for i in live if i != 0})
